@@ -16,7 +16,8 @@ import (
 
 // HostileVals are operand spellings of every value kind, including boundary numbers.
 var HostileVals = []string{"1", "0", "(0-1)", "1.5", "'s'", "null", "[1,2]", "[]", "{'k':1}", "{}", "toStr", "xs.push",
-	"9223372036854775807", "(0-9223372036854775807)", "2", "20", "100", "(0-9223372036854775807-1)", "4611686018427387905", "&cv", "ff", "''", "0.0", "[[1]]", "512", "513", "30001"}
+	"9223372036854775807", "(0-9223372036854775807)", "2", "20", "100", "(0-9223372036854775807-1)", "4611686018427387905", "&cv", "ff", "''", "0.0", "[[1]]", "512", "513", "30001",
+	"8", "64", "63", "65", "(0-8)", "(0-64)", "7", "3", "4", "16", "dd", "xs", "s8", "s64", "len", "keys", "__proto__", "push", "k"}
 
 // OperandTemplates: every operator/dice slot/method with %s operand holes.
 var OperandTemplates = []string{
@@ -29,9 +30,11 @@ var OperandTemplates = []string{
 	"%s[%s]", "%s.x", "%s()", "%s(1)", "%s(1,2)", "%s.len()", "%s.keys()", "%s.values()", "%s.items()", "%s.compute()", "%s.kh()", "%s.sum()", "[%s]kh", "[%s]kl2", "[%s,%s]kh(%s)",
 	"&z = %s; z", "&z = %s; z.x", "&z = %s; &z.y = %s; z.y", "func g(v){ v }; g(%s)", "func g(v){ return v + %s }; g(%s)", "if %s { 1 }", "if %s { 1 } else { %s }", "while %s { break }", "i=0; while i < 3 { i = i + 1; %s }",
 	"this.q = %s; q", "this[%s]", "xs.push(xs); %s", "dd.me = dd; %s", "%s; xs", "[x,2]\n[x,%s]", "return %s", "1 + %s reason",
+	"s8[%s]", "s64[%s]", "s64[%s:%s]", "s8[%s] + s64[%s]", "dd.__proto__ = dd; dd.%s", "dd.__proto__ = {'__proto__': dd}; dd.zz + %s", "pa = {'q': 1}; dd.__proto__ = pa; pa.__proto__ = dd; dd.nope; %s",
+	"xs[%s].%s", "xs.%s", "dd.%s(%s)", "s64.%s", "(%s).len()",
 }
 
-var HostilePrelude = "xs=[1,2,3]; ys=[]; dd={'k':1}; ff = 2.5; &cv = d6 + 1; "
+var HostilePrelude = "xs=[1,2,3]; ys=[]; dd={'k':1}; ff = 2.5; &cv = d6 + 1; s8 = '01234567'; s64 = '0123456789012345678901234567890123456789012345678901234567890123'; "
 
 // Matrix returns the idx-th operand-matrix program.
 func Matrix(r *fw.Rand) string {
